@@ -70,11 +70,14 @@ def ops_for(n, reduced=False):
         ops.append(['index', '[c]'])
         for i in (0, -1, n, 1):
             ops.append(['getitem', i])
-        for sl in ([None, 2], [1, None], [None, None], [-2, None], [0, 0]):
+        for sl in ([None, 2], [1, None], [None, None], [-2, None], [0, 0],
+                   [None, None, 2], [None, None, -1], [1, None, 2], [None, None, -2],
+                   [None, None, 3], [4, 0, -1]):
             ops.append(['slice', sl])
     else:
         ops.append(['getitem', -1])
         ops.append(['slice', [1, None]])
+        ops.append(['slice', [None, None, 2]])
     return ops
 
 
@@ -116,7 +119,7 @@ def apply_model(L, op):
         if name == 'getitem':
             return ('val', L[op[1]])
         if name == 'slice':
-            return ('val', L[op[1][0]:op[1][1]])
+            return ('val', L[slice(*op[1])])
     except (ValueError, IndexError) as e:
         return ('exc', type(e).__name__)
     raise ValueError(name)
@@ -156,7 +159,7 @@ def apply_real(args, op):
         if name == 'getitem':
             return ('val', str(args[op[1]]))
         if name == 'slice':
-            v = args[op[1][0]:op[1][1]]
+            v = args[slice(*op[1])]
             if not isinstance(v, TexArgs):
                 return ('val', 'slice is %s, not TexArgs' % type(v).__name__)
             return ('val', [str(g) for g in v])
